@@ -424,7 +424,9 @@ class Denoter:
         n = self.literal_value(nu)
         if n is None or int(n) != n:
             raise DenotationError("bessel order")
-        return bessel(e._name, int(n), self.ev(x, (), idx, ctx, side))
+        nm = {"cyl_bessel_j": "bessel_J", "cyl_bessel_y": "bessel_Y", "cyl_bessel_i": "bessel_I",
+              "cyl_bessel_k": "bessel_K"}.get(e._name, e._name)
+        return bessel(nm, int(n), self.ev(x, (), idx, ctx, side))
 
     # ---- indexing
     def n_Indexed(self, e, comp, idx, ctx, side):
